@@ -1027,8 +1027,20 @@ class ConstGen(G.Gen):
             return [rec(dims[1:]) for _ in range(dims[0])]
         spec = {"k": "poly", "names": ["q0"], "exps": [[0]], "coefs": [rec(list(shape))],
                 "kind": kind, "shape": list(shape), "via": "attrs", "const": True}
+        if dtype is None and kind in ("int", "float") and rng.random() < 0.15:
+            # narrower coefficient types (the pools are exact in all of them)
+            dtype = rng.choice(["int32", "int16", "int8", "uint8"] if kind == "int"
+                               else ["float32", "float16"])
+            if dtype == "uint8":
+                spec["coefs"] = [G.nested_map(abs, spec["coefs"][0])]
+        if dtype is not None:
+            spec["dtype"] = dtype
         if allow_views and len(shape) >= 2 and rng.random() < 0.1:
             spec["view"] = "T"
+        if kind != "bool" and rng.random() < 0.12:
+            # still a constant, but stored with an explicit all-zero term of an indeterminate
+            # (as kept under retain_coefficients=True), before or after the constant term
+            spec["zero_term"] = {"power": rng.choice([1, 2]), "first": rng.random() < 0.5}
         return spec
 
 
@@ -1069,6 +1081,17 @@ def _gen_two(g):
     return {"operands": ops, "kw": {}}
 
 
+def _gen_nonfinite(g):
+    case = _gen_one(kind="float")(g)
+    spec = case["operands"][0]
+    pool = [float("inf"), float("-inf"), float("nan"), 0.0, 1.5, -2.0]
+    spec["coefs"] = [G.nested_map(lambda v: G.jnum(g.rng.choice(pool)), spec["coefs"][0])]
+    return case
+
+
+mirror("isfinite_nonfinite", _gen_nonfinite, lambda ns, ops, kw: ns.isfinite(ops[0]),
+       npname="isfinite")
+
 for _name in ("absolute", "ceil", "floor", "rint", "isfinite", "negative", "positive", "square"):
     mirror(_name, _gen_one(), (lambda n: lambda ns, ops, kw: getattr(ns, n)(ops[0]))(_name))
 mirror("abs", _gen_one(), lambda ns, ops, kw: abs(ops[0]) if ns.__class__.__name__ != "NumpyNS"
@@ -1105,6 +1128,19 @@ def _gen_close(g):
                                            first["coefs"][0])]
             case["operands"] = [first, other]
     case["kw"] = g.rng.choice([{}, {"rtol": 1e-2}, {"atol": 1e-2, "rtol": 0.0}])
+    if g.rng.random() < 0.3:
+        # distances inside the band where the (asymmetric) relative tolerance decides:
+        # |a - b| <= atol + rtol * |b| scales with the *second* operand only
+        first = case["operands"][0]
+        if first["k"] == "poly":
+            other = dict(first)
+            other["kind"] = "float"
+            other.pop("dtype", None)
+            other["coefs"] = [G.nested_map(
+                lambda v: float(v) * g.rng.choice([1.05, 1.105, 1.105, 1.2, 0.905, 0.95]),
+                first["coefs"][0])]
+            case["operands"] = [first, other] if g.rng.random() < 0.5 else [other, first]
+            case["kw"] = {"rtol": 0.1, "atol": 0.0}
     return case
 
 
@@ -1121,6 +1157,17 @@ def _gen_numdiv(g):
     b["coefs"] = [G.nested_map(lambda v: v if v else (2 if kind == "int" else 2.0), b["coefs"][0])]
     if g.rng.random() < 0.25:
         b = {"k": "py", "v": g.rng.choice([2, 3, -2]) if kind == "int" else g.rng.choice([0.5, -2.0])}
+    if b["k"] == "poly" and g.rng.random() < 0.2:
+        # a narrow float dividend whose quotient is exact only in numpy's promoted dtype
+        # (array divisors only: a Python scalar has no dtype to promote with)
+        a["kind"], a["dtype"] = "float", g.rng.choice(["float32", "float16"])
+        a["coefs"] = [G.nested_map(lambda v: g.rng.choice([60000.0, 33333.0, 12345.0, 999.0]),
+                                   a["coefs"][0])]
+        if b["k"] == "poly":
+            b["kind"] = g.rng.choice(["int", "float"])
+            b.pop("dtype", None)
+            b["coefs"] = [G.nested_map(lambda v: b["kind"] == "int" and g.rng.choice([3, 7, -7])
+                                       or g.rng.choice([3.0, 7.0, 0.7]), b["coefs"][0])]
     return {"operands": [a, b], "kw": {}}
 
 
@@ -1135,11 +1182,14 @@ def _gen_numdiv_float(g):
     for spec in case["operands"]:
         if spec["k"] == "poly":
             spec["kind"] = "float"
+            if spec.get("dtype") not in ("float32", "float16"):
+                spec.pop("dtype", None)
             spec["coefs"] = [G.nested_map(float, spec["coefs"][0])]
         elif spec["k"] == "py":
             spec["v"] = float(spec["v"])
     # out= is the dividend itself: the divisor has the same shape or is a scalar
     a, b = case["operands"]
+    b.pop("zero_term", None)  # ... and no stored term the output has no storage for
     if b["k"] == "poly" and list(b["shape"]) != list(a["shape"]):
         b["shape"] = list(a["shape"])
         b["coefs"] = [G.nested_map(lambda v: float(v) if v else 2.0, a["coefs"][0])]
@@ -1301,12 +1351,18 @@ def _gen_copyto(g):
     kw = {}
     if g.rng.random() < 0.4:
         kw["where"] = g.array_data(base, "bool", zero_prob=0.0)
-    return {"operands": [g.poly(shape=base, kind=kind, allow_views=False),
-                         g.poly(shape=g.compatible_shape(base), kind=kind)], "kw": kw}
+    if g.rng.random() < 0.3:
+        kw["plain_dst"] = True  # destination is a plain numeric ndarray, source a polynomial
+    src = g.poly(shape=g.compatible_shape(base), kind=kind)
+    # a destination is not resized in place: it has storage for every stored term of the source
+    src.pop("zero_term", None)
+    return {"operands": [g.poly(shape=base, kind=kind, allow_views=False), src], "kw": kw}
 
 
 def _copyto_call(ns, ops, kw):
     dst = ops[0].copy()
+    if kw.get("plain_dst") and hasattr(dst, "tonumpy"):
+        dst = dst.tonumpy().copy()
     extra = {}
     if "where" in kw:
         extra["where"] = numpy.array(kw["where"], dtype=bool)
